@@ -89,6 +89,21 @@ def run(ctx):
                   node("plus", node("times", node("plus", a, b), node("negate", c)), node("times", c, a))):
             if val(e) is not None:
                 add(op="expr", x=e)
+    # normalisation by a compound value: products of parenthesised groups, sums, negations, quotients (the symbolic semiring has to
+    # keep "a / z" meaning a / z whatever the shape of z)
+    nz = 0
+    while nz < ctx.pick(600, 6000):
+        a, b, c, d = (leaf(rng.randint(0, 10)) for _ in range(4))
+        zs = [node("times", node("plus", b, c), node("negate", d)), node("times", node("negate", b), node("negate", c)),
+              node("times", node("plus", b, c), node("plus", c, d)), node("times", node("negate", b), node("plus", c, d)),
+              node("times", node("times", node("negate", b), c), node("negate", d)), node("negate", node("times", b, c)),
+              node("plus", node("times", b, c), node("negate", d)), node("normalize", node("negate", b), node("plus", c, d)),
+              node("times", node("negate", b), node("normalize", c, node("plus", c, d)))]
+        z = rng.choice(zs)
+        for e in (node("normalize", a, z), node("normalize", node("times", a, b), z), node("plus", node("normalize", a, z), node("times", c, d))):
+            if val(e) is not None:
+                add(op="expr", x=e)
+                nz += 1
     # operands of very different magnitude (products of small factors in the probability domain, raw logs in the log domain)
     for ea in (0, 1, 5, 9, 20, 100):
         for gap in (0, 1, 8, 12, 15, 16, 17, 18, 20, 30, 40, 100, 150):
